@@ -20,8 +20,9 @@ pub enum Step {
     IntervalWith(Uid, u64),
     DelayedSend(Uid, u64),
     DelayedExec(Uid, u64),
-    AddChild(Addr<Probe<0>>),
-    RegisterChild(u8, Addr<Probe<0>>),
+    /// (child address, child's harness tag)
+    AddChild(Addr<Probe<0>>, u32),
+    RegisterChild(u8, Addr<Probe<0>>, u32),
     SendToChildren(u8, Uid),
     Subscribe(u8),
     Publish(u8, Uid),
@@ -42,7 +43,7 @@ impl Step {
             Step::IntervalWith(..) => "interval_with",
             Step::DelayedSend(..) => "delayed_send",
             Step::DelayedExec(..) => "delayed_exec",
-            Step::AddChild(_) => "add_child",
+            Step::AddChild(..) => "add_child",
             Step::RegisterChild(..) => "register_child",
             Step::SendToChildren(..) => "send_to_children",
             Step::Subscribe(_) => "subscribe",
@@ -370,24 +371,33 @@ impl<const KK: usize> Probe<KK> {
                 Step::IntervalWith(id, d) => self.reg_interval(ctx, id, d, "interval_with"),
                 Step::DelayedSend(id, d) => self.reg_interval(ctx, id, d, "delayed_send"),
                 Step::DelayedExec(id, d) => self.reg_interval(ctx, id, d, "delayed_exec"),
-                Step::AddChild(a) => {
+                Step::AddChild(a, tag) => {
                     ctx.add_child(a);
-                    log::log(K::Effect { msg, actor, step: i, what: name, arg: 0, ok: true });
+                    log::log(K::Effect { msg, actor, step: i, what: name, arg: (2u64 << 32) | tag as u64, ok: true });
                 }
-                Step::RegisterChild(t, a) => {
+                Step::RegisterChild(t, a, tag) => {
                     match t {
                         0 => ctx.register_child::<Bcast<0>>(a),
                         _ => ctx.register_child::<Bcast<1>>(a),
                     }
-                    log::log(K::Effect { msg, actor, step: i, what: name, arg: t as u64, ok: true });
+                    log::log(K::Effect { msg, actor, step: i, what: name, arg: ((t.min(1) as u64) << 32) | tag as u64, ok: true });
                 }
                 Step::SendToChildren(t, uid) => {
-                    match t {
-                        0 => ctx.send_to_children(Bcast::<0> { uid }),
-                        1 => ctx.send_to_children(Bcast::<1> { uid }),
-                        _ => ctx.send_to_children(()),
-                    }
-                    log::log(K::Effect { msg, actor, step: i, what: name, arg: uid, ok: true });
+                    let what = match t {
+                        0 => {
+                            ctx.send_to_children(Bcast::<0> { uid });
+                            "send_to_children.0"
+                        }
+                        1 => {
+                            ctx.send_to_children(Bcast::<1> { uid });
+                            "send_to_children.1"
+                        }
+                        _ => {
+                            ctx.send_to_children(());
+                            "send_to_children.2"
+                        }
+                    };
+                    log::log(K::Effect { msg, actor, step: i, what, arg: uid, ok: true });
                 }
                 Step::Subscribe(t) => {
                     let ok = match t {
